@@ -82,8 +82,8 @@ def run(ctx):
     rng = ctx.rng.fork("C07")
     lines, kinds, exps = [], [], []
     # 1. exhaustive sequences over the reduced alphabet, end() appended; several budgets
-    depth = 5 if quick else 7
-    budgets = [(2, 5), (0, 0), (7, 8), (3, 1)] if quick else [(p, i) for p in (0, 1, 2, 3, 5, 7) for i in (0, 1, 5, 8)]
+    depth = 5 if quick else 6
+    budgets = [(2, 5), (0, 0), (7, 8), (3, 1)] if quick else [(p, i) for p in (0, 2, 3, 7) for i in (0, 1, 5)]
     seqs = list(stategen.framer_exhaustive(depth))
     if quick:
         seqs = seqs[:: max(1, len(seqs) // 12000)]
